@@ -74,8 +74,15 @@ def load_known():
     return j.get("known", [])
 
 
+COLLECT = None      # thorough tier: list collecting the per-configuration results instead of writing them
+
+
 def finish(prop, tier, rules, explanation, assumptions, trusted_base, t0, extra=None, seed=0):
     """Write evidence, print the verdict lines, return the exit code."""
+    if COLLECT is not None:
+        COLLECT.append({"rules": rules, "explanation": explanation, "assumptions": assumptions, "trusted_base": trusted_base,
+                        "extra": extra})
+        return 1 if any(r.findings for r in rules) else 0
     known = load_known()
     kmap = {}
     for k in known:
